@@ -1,0 +1,58 @@
+//go:build verif
+
+// Contracts for govc (contract-based deductive verification); comments only.
+package queue_order
+
+// Sign convention (same as the job comparators): -1 = lQueue is ordered first, 1 = rQueue first.
+//@ define sgn(d int) int = ite(d < 0, 0 - 1, ite(d > 0, 1, 0))
+// a queue is over-utilised when its fair share is strictly below its allocation in every resource
+//@ define overUtilized(q *rs.QueueAttributes) bool = q.CPU.FairShare < q.CPU.Allocated && q.Memory.FairShare < q.Memory.Allocated && q.GPU.FairShare < q.GPU.Allocated
+//@ define b2i(b bool) int = ite(b, 1, 0)
+// allocatable share of l is <= r's in every resource (with -1 = unlimited) and strictly below in at least one
+//@ define allocLeq(l *rs.QueueAttributes, r *rs.QueueAttributes) bool = rs.leq(rs.allocatable(l.CPU), rs.allocatable(r.CPU)) && rs.leq(rs.allocatable(l.Memory), rs.allocatable(r.Memory)) && rs.leq(rs.allocatable(l.GPU), rs.allocatable(r.GPU))
+//@ define weaker(l *rs.QueueAttributes, r *rs.QueueAttributes) bool = allocLeq(l, r) && !allocLeq(r, l)
+
+// C16 (comparators feeding the hierarchical priority queue must be consistent; DESIGN: strict weak
+// order lemma "attempted" for QueueOrderFn): higher queue priority first.
+//@ func prioritizePrioritized
+//@   props C16
+//@   requires lQueue != nil && rQueue != nil
+//@   pure
+//@   ensures result == sgn(rQueue.Priority - lQueue.Priority)
+//@   ensures [higherFirst] lQueue.Priority > rQueue.Priority <==> result < 0
+//@   lemma [antisym] result == 0 - sgn(lQueue.Priority - rQueue.Priority)
+//@ end
+
+// queues not above their fair share go before queues above it
+//@ func prioritizeUnderUtilized
+//@   props C16
+//@   requires lQueue != nil && rQueue != nil && rs.cacheOK(lQueue) && rs.cacheOK(rQueue)
+//@   modifies lQueue.lastFairShare, rQueue.lastFairShare
+//@   ensures result == sgn(b2i(overUtilized(lQueue)) - b2i(overUtilized(rQueue)))
+//@   ensures [underUtilizedFirst] !overUtilized(lQueue) && overUtilized(rQueue) <==> result < 0
+//@   lemma [antisym] result == 0 - sgn(b2i(overUtilized(rQueue)) - b2i(overUtilized(lQueue)))
+//@   ensures rs.cacheOK(lQueue) && rs.cacheOK(rQueue)
+//@ end
+
+// the queue with the (component-wise) smaller allocatable share goes first
+//@ func prioritizeBasedOnAllocatableShare
+//@   props C16
+//@   requires lQueue != nil && rQueue != nil
+//@   pure
+//@   ensures result == ite(weaker(lQueue, rQueue), 0 - 1, ite(weaker(rQueue, lQueue), 1, 0))
+//@   lemma [antisym] result == 0 - ite(weaker(rQueue, lQueue), 0 - 1, ite(weaker(lQueue, rQueue), 1, 0))
+//@ end
+
+// Last tie-break: the older queue first; never "equal" (timestamps are opaque integers in the engine's model).
+// For EQUAL timestamps the result is rQueuePrioritized in both argument orders: as a `less` (result < 0) relation
+// this is still asymmetric (lemma), but cmp(l,r) == -cmp(r,l) does not hold and the Session's UID tie-break is
+// never reached while the proportion plugin is registered (see report).
+//@ define ctCmp(l *rs.QueueAttributes, r *rs.QueueAttributes) int = ite(l.CreationTimestamp < r.CreationTimestamp, 0 - 1, 1)
+//@ func prioritizeBasedOnCreationTime
+//@   props C16
+//@   requires lQueue != nil && rQueue != nil
+//@   pure
+//@   ensures [olderFirst] result == ctCmp(lQueue, rQueue)
+//@   ensures [neverEqual] result == 1 || result == 0 - 1
+//@   lemma [lessIsAsymmetric] !(result < 0 && ctCmp(rQueue, lQueue) < 0)
+//@ end
